@@ -804,6 +804,14 @@ class Runner(object):
     def __init__(self, chk):
         self.chk = chk
         self.mismatch = {}
+        self.failed = {}   # signature -> number of failing inputs (the first one is written as the replay)
+
+    def fail(self, signature, what, replay):
+        """ One replay file per class of failing input. """
+        self.failed[signature] = self.failed.get(signature, 0) + 1
+        if self.failed[signature] > 1:
+            return self.chk.known_match(signature) is None
+        return self.chk.fail(signature, what, replay)
 
     def note(self, suite, detail):
         self.mismatch.setdefault(suite, []).append(detail)
@@ -832,26 +840,26 @@ class Runner(object):
         name = KIND_NAMES_OF([frame], 0)
         canon = tuple(octets_of(fld) if isinstance(fld, Gen) else fld for fld in frame)
         if impl['exc']:
-            return self.chk.fail('C07 / codec / exception in scapy codec (%s)' % name, impl['exc'], replay)
+            return self.fail('C07 / codec / exception in scapy codec (%s)' % name, impl['exc'], replay)
         got = spec_decode(impl['enc'] + tail, True)
         if got is None or got[0] != canon or got[1] != len(impl['enc']):
-            return self.chk.fail('C07 / codec / implementation encoding not decoded to the same fields by the RFC 9174 decoder (%s)' % name,
+            return self.fail('C07 / codec / implementation encoding not decoded to the same fields by the RFC 9174 decoder (%s)' % name,
                                  'encoded %s, independent decoder finds %s' % (impl['enc'].hex()[:120], str(got)[:200]), replay)
         if impl['dec'] is None or impl['dec'][0] != canon or impl['dec'][1] != len(spec_encode(frame)):
-            return self.chk.fail('C07 / codec / RFC 9174 encoding not decoded to the same fields by the implementation (%s)' % name,
+            return self.fail('C07 / codec / RFC 9174 encoding not decoded to the same fields by the implementation (%s)' % name,
                                  'independent encoding %s, implementation finds %s' % (spec_encode(frame).hex()[:120], str(impl['dec'])[:200]), replay)
         if frame[0] in ('seg', 'init'):
             bound = XFER_BOUND if frame[0] == 'seg' else SESS_BOUND
             region = frame[3] if frame[0] == 'seg' else frame[5]
             spec_items = spec_decode_items(region, bound)
             if spec_items != list(items):
-                return self.chk.fail('C07 / codec / independent item decoder disagrees with the generator', str(spec_items)[:200], replay)
+                return self.fail('C07 / codec / independent item decoder disagrees with the generator', str(spec_items)[:200], replay)
             want = [[[1], [fl], [ty], [len(val)], list(val)] for (fl, ty, val) in items]
             if impl.get('view') != want:
                 if len(items) >= 2 and impl.get('view') == [[[0], list(region)]]:
-                    return self.chk.fail(KNOWN_EXT_SIG, '%s with %d extension items: implementation reports ext_items=[Raw(%d octets)]' % (
+                    return self.fail(KNOWN_EXT_SIG, '%s with %d extension items: implementation reports ext_items=[Raw(%d octets)]' % (
                         name, len(items), len(region)), replay)
-                return self.chk.fail('C07 / codec / extension items not decoded to the same fields by the implementation (%s, %d items)' % (name, len(items)),
+                return self.fail('C07 / codec / extension items not decoded to the same fields by the implementation (%s, %d items)' % (name, len(items)),
                                      'items %s, implementation reports %s' % (str(items)[:160], str(impl.get('view'))[:200]), replay)
         return False
 
@@ -861,7 +869,7 @@ class Runner(object):
             obs = RxObs(split_stream(stream, lens), mode)
         bad = oracle_framing(stream, lens, obs) if verdict else None
         if bad is not None:
-            self.chk.fail('C07 / framing / ' + bad[0], 'stream %s cut %s: %s' % (stream.hex()[:100], lens[:24], bad[1]), replay)
+            self.fail('C07 / framing / ' + bad[0], 'stream %s cut %s: %s' % (stream.hex()[:100], lens[:24], bad[1]), replay)
         return (obs, bad)
 
 
@@ -870,28 +878,45 @@ def item_bound(frame):
 
 
 class ModelJobs(object):
-    """ Coq evaluations run in background threads (each one is a set of coqc
-    processes) while the implementation side runs in this process. """
+    """ All model evaluations of a run go into ONE sharded coq_eval call (each
+    coqc process has a fixed start-up cost): suites register closed terms,
+    ``start`` launches the evaluation in a background thread while the
+    implementation side runs in this process, ``get`` waits for the values. """
 
     def __init__(self, chk):
         from concurrent.futures import ThreadPoolExecutor
         self.chk = chk
-        self.pool = ThreadPoolExecutor(max_workers=16)
+        self.pool = ThreadPoolExecutor(max_workers=2)
+        self.terms = []
+        self.future = None
 
-    def submit(self, name, terms, func, chunk=250, defs=''):
-        terms = list(terms)
+    def add(self, term):
+        self.terms.append(term)
+        return len(self.terms) - 1
+
+    def add_cuts(self, stream_term, cuts):
+        """ One case: the stream is built once, every cut of ``cuts`` is run on it. """
+        return self.add('(let s : bytes := %s in map (fun lens => rx_brief (s, lens)) %s)' % (
+            stream_term, coq_list([c_lens(lens) for lens in cuts], '(list nat)')))
+
+    def start(self, nshards=16):
+        terms = list(self.terms)
+        chunk = max(1, -(-len(terms) // nshards))
         nshards = max(1, -(-len(terms) // chunk))
         # spread neighbouring (similarly expensive) cases over the shards
         order = sorted(range(len(terms)), key=lambda idx: (idx % nshards, idx))
 
         def work():
-            res = self.chk.coq_eval(name, ['Model.TcpclMsg'], [terms[idx] for idx in order], func, chunk, 900, PRELUDE + defs)
+            res = self.chk.coq_eval('all', ['Model.TcpclMsg'], [terms[idx] for idx in order], '(fun x => x)', chunk, 1500, PRELUDE)
             out = [None] * len(terms)
             for (idx, val) in zip(order, res):
                 out[idx] = val
             return out
 
-        return self.pool.submit(work)
+        self.future = self.pool.submit(work)
+
+    def get(self, handle):
+        return self.future.result()[handle]
 
 
 def frame_json(frame):
@@ -932,11 +957,11 @@ def run_codec(chk, run, jobs, corpus, sizes):
         else:
             small.append((pos, '(%s, %s)' % (c_frame_msg(frame), coq_bytes(tail))))
     item_cases = [(pos, frame, items) for (pos, (frame, items, _t)) in enumerate(cases) if frame[0] in ('seg', 'init')]
-    fut_small = jobs.submit('codec', [term for (_p, term) in small], 'codec_small', chunk=64)
-    fut_big = jobs.submit('codecbig', [term for (_p, term) in big], 'codec_big', chunk=4)
-    fut_xf = jobs.submit('extsx', [coq_bytes(f[3]) for (_p, f, _i) in item_cases if f[0] == 'seg'], 'exts_xfer')
-    fut_se = jobs.submit('extss', [coq_bytes(f[5]) for (_p, f, _i) in item_cases if f[0] == 'init'], 'exts_sess')
-    fut_enc = jobs.submit('extsenc', [c_items(i) for (_p, _f, i) in item_cases], 'enc_items')
+    h_small = [(pos, jobs.add('(codec_small %s)' % term)) for (pos, term) in small]
+    h_big = [(pos, jobs.add('(codec_big %s)' % term)) for (pos, term) in big]
+    h_items = [(pos, jobs.add('(exts_xfer %s)' % coq_bytes(f[3]) if f[0] == 'seg' else '(exts_sess %s)' % coq_bytes(f[5])),
+                jobs.add('(enc_items %s)' % c_items(i))) for (pos, f, i) in item_cases]
+    yield
     impls = [run.codec_impl(frame, items, tail) for (frame, items, tail) in cases]
     for (pos, (frame, items, tail)) in enumerate(cases):
         impl = impls[pos]
@@ -955,15 +980,13 @@ def run_codec(chk, run, jobs, corpus, sizes):
     sizes['codec'] = len(cases)
     yield
     model = {}
-    for ((pos, _t), val) in zip(small, fut_small.result()):
-        model[pos] = ('small', val)
-    for ((pos, _t), val) in zip(big, fut_big.result()):
-        model[pos] = ('big', val)
+    for (pos, hdl) in h_small:
+        model[pos] = ('small', jobs.get(hdl))
+    for (pos, hdl) in h_big:
+        model[pos] = ('big', jobs.get(hdl))
     model_items = {}
-    it_xf = iter(fut_xf.result())
-    it_se = iter(fut_se.result())
-    for ((pos, frame, items), enc) in zip(item_cases, fut_enc.result()):
-        model_items[pos] = (next(it_xf) if frame[0] == 'seg' else next(it_se), enc)
+    for (pos, h_view, h_enc) in h_items:
+        model_items[pos] = (jobs.get(h_view), jobs.get(h_enc))
     for (pos, (frame, items, tail)) in enumerate(cases):
         impl = impls[pos]
         name = KIND_NAMES_OF([frame], 0)
@@ -1012,6 +1035,7 @@ def run_framing_short(chk, run, jobs, sizes, pool):
     rng = chk.rng
     streams = short_streams(chk)
     model_cases = []   # (stream index, mask, lens)
+    handles = []
     budget = 600 if chk.quick() else 6000
     per_stream = max(8, budget // max(1, len(streams)))
     for (sidx, (tag, stream)) in enumerate(streams):
@@ -1020,11 +1044,11 @@ def run_framing_short(chk, run, jobs, sizes, pool):
         sampled = set([0, total - 1])
         while len(sampled) < min(per_stream, total):
             sampled.add(rng.randrange(total))
-        for mask in sorted(sampled):
-            model_cases.append((sidx, mask, cut_lens(mask, size)))
-    fut = jobs.submit('short', ['(%s, %s)' % (coq_bytes(streams[sidx][1]), c_lens(lens)) for (sidx, _m, lens) in model_cases],
-                      'rx_brief', chunk=80)
+        mine = [(sidx, mask, cut_lens(mask, size)) for mask in sorted(sampled)]
+        model_cases += mine
+        handles.append(jobs.add_cuts(coq_bytes(stream), [lens for (_s, _m, lens) in mine]))
     pending = pool.map_async(short_worker, [stream for (_t, stream) in streams], chunksize=1)
+    yield
     yield
     all_obs = {}
     for ((sidx, (tag, stream)), observed) in zip(enumerate(streams), pending.get()):
@@ -1046,7 +1070,10 @@ def run_framing_short(chk, run, jobs, sizes, pool):
     sizes['framing_short_all_cuts'] = len(all_obs)
     sizes['framing_short_model_evaluated'] = len(model_cases)
     uncut = {}
-    for ((sidx, mask, lens), val) in zip(model_cases, fut.result()):
+    values = []
+    for hdl in handles:
+        values += jobs.get(hdl)
+    for ((sidx, mask, lens), val) in zip(model_cases, values):
         (mtrace, mframes, mtail) = canon_model(val)
         (itrace, iframes, itail, raised) = all_obs[(sidx, mask)]
         if mask == 0:
@@ -1100,9 +1127,8 @@ def run_framing_long(chk, run, jobs, sizes):
         assert size == len(flat)
         for (ctag, lens) in cuts:
             plan.append((tag, frames, parts, flat, ctag, lens))
-        # the stream is defined once per job, its cuts are the cases
-        futs.append(jobs.submit('long%d' % sidx, ['(the_stream, %s)' % c_lens(lens) for (_c, lens) in cuts], 'rx_brief', chunk=1000,
-                                defs='Definition the_stream : bytes := %s.\n' % c_parts(parts)))
+        futs.append(jobs.add_cuts(c_parts(parts), [lens for (_c, lens) in cuts]))
+    yield
     done = []
     for (tag, frames, parts, flat, ctag, lens) in plan:
         (_f, ends, _s) = spec_stream(flat)
@@ -1121,8 +1147,8 @@ def run_framing_long(chk, run, jobs, sizes):
     sizes['framing_long_directed'] = len(done)
     yield
     results = []
-    for fut in futs:
-        results += fut.result()
+    for hdl in futs:
+        results += jobs.get(hdl)
     compare_streams(run, 'framing-long', done, results)
     chk.obligation('correspondence:framing-long', not run.mismatch.get('framing-long'), '; '.join(run.mismatch.get('framing-long', [])[:3]))
 
@@ -1153,8 +1179,8 @@ def run_framing_real(chk, run, jobs, sizes):
         cuts = [(ctag, lens) for (ctag, lens) in cuts if not (ctag.startswith('two-reads') and rng.random() < 0.5)]
         for (ctag, lens) in cuts:
             plan.append((parts, flat, ctag, lens))
-        futs.append(jobs.submit('real%d' % idx, ['(the_stream, %s)' % c_lens(lens) for (_c, lens) in cuts], 'rx_brief', chunk=1000,
-                                defs='Definition the_stream : bytes := %s.\n' % c_parts(parts)))
+        futs.append(jobs.add_cuts(c_parts(parts), [lens for (_c, lens) in cuts]))
+    yield
     done = []
     for (parts, flat, ctag, lens) in plan:
         (_f, ends, _s) = spec_stream(flat)
@@ -1166,8 +1192,8 @@ def run_framing_real(chk, run, jobs, sizes):
     sizes['framing_real_handler'] = len(done)
     yield
     results = []
-    for fut in futs:
-        results += fut.result()
+    for hdl in futs:
+        results += jobs.get(hdl)
     compare_streams(run, 'framing-real', done, results)
     chk.obligation('correspondence:framing-real-handler', not run.mismatch.get('framing-real'), '; '.join(run.mismatch.get('framing-real', [])[:3]))
 
@@ -1223,7 +1249,7 @@ def run_malformed(chk, run, jobs, sizes):
             probes.append(('bit-flip', base[:pos] + bytes([base[pos] ^ (1 << rng.randrange(8))]) + base[pos + 1:]))
         else:
             probes.append(('random-octets', bytes(rng.randrange(256) for _ in range(rng.randrange(1, 40)))))
-    fut_probe = jobs.submit('malprobe', [coq_bytes(buf) for (_t, buf) in probes], 'probe_msg', chunk=24)
+    h_probe = [jobs.add('(probe_msg %s)' % coq_bytes(buf)) for (_t, buf) in probes]
     streams = []
     hdr = spec_encode(GOOD_CONTACT)
     streams.append(('stall-unknown-type', hdr + b'\x04' + b'\x09\x05\x00\x03'))
@@ -1239,7 +1265,8 @@ def run_malformed(chk, run, jobs, sizes):
             cut_sets = [[len(stream)], lens_from_points([3, 6, 7, 20, len(stream) - 1], len(stream))]
         for lens in cut_sets:
             plan.append((tag, stream, lens))
-    fut_stream = jobs.submit('malstream', ['(%s, %s)' % (coq_bytes(stream), c_lens(lens)) for (_t, stream, lens) in plan], 'rx_brief', chunk=5)
+    h_stream = [jobs.add('(rx_brief (%s, %s))' % (coq_bytes(stream), c_lens(lens))) for (_t, stream, lens) in plan]
+    yield
     count = 0
     impl_probe = []
     for (tag, buf) in probes:
@@ -1263,12 +1290,12 @@ def run_malformed(chk, run, jobs, sizes):
     sizes['malformed'] = count
     chk.coverage['malformed_cases_outside_verdict'] = count
     yield
-    for ((tag, buf), impl, val) in zip(probes, impl_probe, fut_probe.result()):
+    for ((tag, buf), impl, val) in zip(probes, impl_probe, [jobs.get(hdl) for hdl in h_probe]):
         # model gives the number of octets left, implementation the number consumed
         got = [([list(f) for f in ent[0]], len(buf) - ent[1]) for ent in val]
         if got != impl:
             run.note('malformed', '%s %s: model %s / impl %s' % (tag, buf.hex()[:60], str(got)[:100], str(impl)[:100]))
-    compare_streams(run, 'malformed', done, fut_stream.result())
+    compare_streams(run, 'malformed', done, [jobs.get(hdl) for hdl in h_stream])
     chk.obligation('correspondence:malformed (no verdict)', not run.mismatch.get('malformed'), '; '.join(run.mismatch.get('malformed', [])[:3]))
 
 
@@ -1325,16 +1352,21 @@ def run_all(chk):
               ('codec', run_codec(chk, run, jobs, corpus_codec, sizes))]
     try:
         for (name, gen) in stages:
-            next(gen)
+            next(gen)               # generate the cases, register the model terms
+        lap('generate')
+        jobs.start()                # one sharded coqc run in the background
+        for (name, gen) in stages:
+            next(gen)               # implementation side + oracle
             lap('impl:' + name)
         for (name, gen) in stages:
-            for _ in gen:
+            for _ in gen:           # wait for the model, compare
                 pass
             lap('model-wait+compare:' + name)
     finally:
         jobs.pool.shutdown(wait=True)
         pool.terminate()
     chk.coverage['suite_sizes'] = sizes
+    chk.coverage['failing_inputs_by_signature'] = dict(run.failed)
     chk.coverage['exhaustive'] = False
     chk.coverage['exhaustive_note'] = 'every one of the 2^(n-1) cuts of each short stream is run on the implementation'
     print('# phases (s): %s' % json.dumps(laps, sort_keys=True))
